@@ -478,6 +478,24 @@ def _child_guard(ctx, v, fv, cb):
               "every `Some(child)` exit of the child function must be guarded by the true arm of the CHECK comparison")
 
 
+def _branch_between(b, src, dst):
+    """is there a conditional branch on some path from block src to block dst (exclusive of dst)?"""
+    seen = set()
+    work = [src]
+    while work:
+        x = work.pop()
+        if x in seen or x == dst:
+            continue
+        seen.add(x)
+        if dst not in b.reach(x):
+            continue
+        succ = [s_ for s_ in b.succ(x)]
+        if len(succ) > 1:
+            return True
+        work.extend(succ)
+    return False
+
+
 def ttj_state_local(body, tj):
     """the user-level local holding the walk state: argument 1 of the child call, copies chased"""
     a = tj["args"][1]
@@ -605,6 +623,29 @@ def _trans_fn(ctx, v, roles, tb, allowed):
     else:
         ctx.check(not eq_dead, "TRANS-STD", tb, "no-dead-test", tb.span,
                   "the standard transition must not special-case the DEAD state")
+    # every `return ROOT` of a transition has one of the permitted reasons: the walk reached ROOT, (leftmost) the fail link
+    # is DEAD, (cw) the character is unmapped — nothing else may cut the fail walk short
+    root_assigns = [(bi_, si_) for bi_, si_, st_ in tb.stmts() if st_["k"] == "assign" and st_["lhs"]["local"] == 0 and not st_["lhs"]["proj"]
+                    and st_["rv"]["k"] == "use" and st_["rv"]["op"]["k"] == "const" and st_["rv"]["op"].get("bits") == 0]
+    allowed_edges = []
+    for bi_, t_, d_ in eq_root:
+        other_ = d_[3] if is_const(d_[2], 0) else d_[2]
+        if all(m_[0] in ("param", "loop") or (m_[0] == "call" and m_[1] == v.S + "::fail") for m_ in members(other_)):
+            allowed_edges.append((bi_, bool_arms(t_)[0]))
+    if is_leftmost:
+        for bi_, t_, d_ in eq_dead:
+            other_ = d_[3] if is_const(d_[2], 1) else d_[2]
+            if any(m_[0] == "call" and m_[1] == v.S + "::fail" for m_ in members(other_)):
+                allowed_edges.append((bi_, bool_arms(t_)[0]))
+    if v.tag == "cw":
+        for sbi_, st_, d_ in switches_on(root, lambda d: d[0] == "discr" and d[1][0] == "call" and str(d[1][1]).endswith("CodeMapper::get")):
+            allowed_edges.append((sbi_, opt_arms(st_)[1]))
+    for bi_, si_ in root_assigns:
+        # the assignment sits right behind its guard: guarded by an allowed edge and by no further non-allowed branch after it
+        g_ = [e_ for e_ in allowed_edges if b.edge_guards(e_, bi_) and (e_[1] == bi_ or not _branch_between(b, e_[1], bi_))]
+        ctx.check(bool(g_), "TRANS-RET", tb, "root-return-reason:" + tag, tb.loc(bi_, si_),
+                  "a transition may return ROOT only because the walk reached ROOT%s%s; this return has another (or an additional) condition"
+                  % (", or the fail link is DEAD" if is_leftmost else "", ", or the character is unmapped" if v.tag == "cw" else ""))
     # cw: unmapped characters return ROOT before any table access
     if v.tag == "cw":
         getcalls = fv.calls(lambda c: c.key.endswith("CodeMapper::get"))
